@@ -95,7 +95,35 @@ def history(engine, length):
         return None, hist
 
 
+def tuple_valued(route):
+    """a function with ONE output whose value is a tuple: the row's output column holds that value"""
+    def pair(a, b):
+        return (a, b)
+    with tmpdir() as d, quiet():
+        s = xyz.Sampler(xyz.Runner(pair, var_names="x"), data_name=os.path.join(d, "t.pkl"), default_combos=CHOICES)
+        np.random.seed(3)
+        if route == "direct":
+            last = s.sample_combos(3, verbosity=0)
+        else:
+            crop = s.Crop(name="c", parent_dir=d, batchsize=2)
+            crop.sow_samples(3, verbosity=0)
+            crop.grow_missing()
+            last = crop.reap()
+        for i in range(len(last)):
+            a, b, x = last.iloc[i]["a"], last.iloc[i]["b"], last.iloc[i]["x"]
+            if not (isinstance(x, tuple) and tuple(x) == (a, b)):
+                return [f"row a={a} b={b}: the output column holds {x!r}, the function returned {(a, b)!r}"]
+        if len(last) != 3 or len(s.full_df) != 3:
+            return [f"{len(last)} rows returned, {len(s.full_df)} accumulated for n=3"]
+    return None
+
+
 tried = 0
+for route in ("direct", "crop"):
+    tried += 1
+    pr = tuple_valued(route)
+    if pr:
+        finish(True, input=dict(engine="pickle", history=[(route, 3)], outputs="one output whose value is a tuple"), observed=pr, tried=tried)
 for engine in ("pickle", "csv"):
     for rep in range(10 if engine == "pickle" else 6):
         tried += 1
